@@ -14,8 +14,8 @@ THEOREMS = {
     'C01_entry_roundtrip': 'a rendered entry (either delimiter pair, any layout of key, fields, trailing comma) is read back by parse_command as (type as written, key, fields as written with expanded pieces, in source order); exactly the rendering is consumed, nothing is reported',
     'C01_string_roundtrip': '@string: the macro table is updated under the written name with the expansion of the value and then agrees with the reference table on every lookup',
     'C01_preamble_roundtrip': '@preamble: the expanded pieces of the value are returned',
-    'C01_comment_skipped': '@comment: skipped right behind the opening delimiter; its @-free text is passed over as junk',
-    'C01_faithful': 'reading render(d, L) of a well-formed abstract document under any layout raises nothing, reports nothing and yields exactly the database the document denotes (entries with key, type, fields in source order with expanded, concatenated, white-space-normalised values, persons split per role, preamble list), identifiers spelled as written',
+    'C01_comment_skipped': '@comment: skipped right behind the opening delimiter; its text is passed over as junk - ONLY for @-free text (atFree: an @ inside a comment or junk starts a command in pybtex, as in BibTeX)',
+    'C01_faithful': 'reading render(d, L) of a well-formed abstract document under any layout raises nothing, reports nothing and yields exactly the database the document denotes (entries with key, type, fields in source order with expanded, concatenated, white-space-normalised values, persons split per role, preamble list), identifiers spelled as written; inside denote, normalisation and person splitting are the SHARED model functions normalizeWs / splitNameList / mkPerson, characterised separately (C01_normalize_spec, C01_split_names_spec, C04)',
     'C01_faithful_nonvacuous': 'the hypotheses hold for a two-entry document using every construct (both delimiters, macro#literal#month, quoted / braced / bare literals, author field, @string, @preamble, @comment, junk, CR/LF/CRLF/TAB, case masks)',
     'C01_faithful_plain': 'without case masks on entry types and field names the result is exactly the denotation of the document itself',
     'C01_layout_independent': 'two well-formed layouts of one document give equal databases when they spell types and field names alike, and in general databases equal up to the stored spelling of types / field names / role names; each agrees in that sense with the denotation of the document',
@@ -23,11 +23,13 @@ THEOREMS = {
     'C01_identifiers': 'keys, entry types and field / role names are stored with the spelling written (closed form of the result); macro lookup is case-insensitive; document level: for every document that may repeat keys / field names the reports are exactly the case-insensitive duplicates and the entries are the first entry command of every key with the first field of every name (closed form)',
     'C01_faithful_dups': 'documents whose entries may repeat field names and whose keys may repeat (up to case), WFD = WF without the two no-repetition conditions: continue mode raises nothing, reports exactly the DuplicateField / repeated-entry reports in document order (duplicate fields of a dropped entry first) and yields the database in which the first entry of every key and the first field of every name win; strict mode: same result when there is nothing to report, otherwise the first report is raised',
     'C01_fieldless_comma_independent': 'the comma of a field-less entry (@a{k,} vs @a{k}) and any other trailing-comma choice does not change the database',
-    'C01_split_point_independent': 'macro-plus-concatenation values: two well-formed renderings whose documents as written differ only in how the literal text of the values is cut into "#"-pieces (DocEq: same macro names in the same order, same text between them; a literal may be cut anywhere, empty literals inserted) give the same database, in either mode',
+    'C01_split_point_independent': 'macro-plus-concatenation values: two well-formed renderings whose documents as written are DocEq give the same database, in either mode. DocEq is the SEMANTIC relation "values have the same expansion under every macro table" (so this is a short corollary of C01_faithful); that cutting a literal anywhere / inserting empty literals / changing the case of macro names gives DocEq is C01_split_point_rules (sufficient conditions, no iff)',
+    'C01_split_point_rules': 'what DocEq holds of: a literal may be cut into "#"-pieces anywhere, an empty literal inserted or dropped, any cutting at once, macro names may differ in letter case; congruence for "#", equivalence relation; a macro name is NEVER exchangeable for a literal text. Sufficient conditions plus one necessary one - no complete syntactic characterisation (iff) of DocEq is proved',
     'C01_split_point_independent_dups': 'the same for documents that may repeat field names / keys: equal databases and equal reports',
     'C01_split_point_independent_ci': 'when the documents themselves are DocEq (any case masks) the databases agree up to the stored spelling of types / field names / role names',
-    'C01_months_redefinable': 'month macros predefined but not fixed: @string overrides a name (a month name included) for every later use in any letter case and leaves all other names alone',
-    'C01_key_folding': 'identifiers matched case-insensitively, keys: entry keys (the only identifiers that may hold non-ASCII letters) are folded with str.lower() - the Unicode mapping, idempotent, coarser than the ASCII folding of the other identifiers and equal to it on ASCII keys',
+    'C01_months_redefinable': '[spec-level law] a get/set law of the REFERENCE macro table (Spec functions expandPiece / stepMacros only, says nothing about the reader by itself): after @string{n = v} a macro k expands to the expansion of v if k equals n up to case (a month name included), else to what it did before. The reader enters through C01_faithful (denote threads stepMacros): C01_months_redefinable_reader',
+    'C01_months_redefinable_reader': 'month macros predefined but not fixed, at the level of the READER: for every well-formed document and layout the entries returned are the entry commands each evaluated in the macro table in force where it stands, and behind pre ++ @string{n = v} that table has n (any letter case) set to the expansion of v and every other name unchanged (closed form of entriesWith + the table law)',
+    'C01_key_folding': 'three ALGEBRAIC facts about the folding function keyFold (idempotent; coarser than the ASCII folding of the other identifiers; equal to it on ASCII keys) - not about the reader: that the reader compares keys through keyFold is C01_faithful_dups (stepDenotD), that keyFold is str.lower() rests on the regenerated table; keys with U+0130 / U+03A3 are excluded by ASSUMPTIONS only (keyOk does not exclude them: differential only)',
     'C01_normalize_spec': 'values white-space-normalised, characterised independently of the definition: normalizeWs is idempotent; the result has no leading / trailing white space, no two adjacent white-space characters, no white-space character but the blank; the non-white-space characters are kept in order; texts with these properties are fixed points; the result is the words of the text (split at the 29 code points, empty pieces dropped) joined by single blanks; equal normalisation iff equal words',
     'C01_wordsOf_spec': 'the reference notion wordsOf is determined by three equations (empty text, a text without white space, a white-space character separates) and produces exactly the non-empty white-space-free pieces',
     'C01_split_names_spec': 'author/editor lists split into persons, characterised: a braced group with balanced body is one name whatever it contains; a balanced text without level-0 separator match is one name; junction: such a text followed by any spelling of " and " (a/A n/N d/D) and any non-empty text b is split off in front of the names of b; hence a list a0 w1 a1 ... wn an splits into exactly the stripped ai',
@@ -395,6 +397,10 @@ LEVEL_NOTE = ('Trusted: Lean kernel; axioms propext/Classical.choice/Quot.sound 
               'C01_split_names_spec) and normalizeWs is shared with the model (characterised by C01_normalize_spec); WFD excludes person names with more than '
               'two top-level commas (reported by the reader), undefined macros, empty values, keys that the key pattern would not scan (a field-less entry in '
               'parentheses without comma needs white space behind the key: @a(k) reads the key "k)"), literals with unbalanced braces or nesting > 100, and '
-              'non-NAME identifiers (the regenerated NAME tables; ASCII case mapping for NAMEs, str.lower() table for keys, without U+0130 / U+03A3). Line '
+              'non-NAME identifiers (the regenerated NAME tables; ASCII case mapping for NAMEs, str.lower() table for keys, without U+0130 / U+03A3 - the latter by '
+              'ASSUMPTIONS and generators only, no predicate of WF excludes them), and junk / @comment text containing an @ (atFree: an @ starts a command in pybtex as '
+              'in BibTeX, so the restriction is intrinsic). C01_months_redefinable and C01_key_folding are laws of Spec functions (the reader enters through '
+              'C01_faithful / C01_faithful_dups and C01_months_redefinable_reader); the split-point theorems take the semantic relation DocEq as hypothesis (sufficient '
+              'syntactic conditions: C01_split_point_rules). Line '
               'numbers are not part of the statements (see C10). wanted_entries = None. In strict mode with something to report only the raised error is '
               'characterised (the first report), not the state at that moment.')
